@@ -227,6 +227,20 @@ def twigs_facts(tree):
     F['exactCutoff'] = ast.unparse(_kw(dj, 'cutoff'))
     F['exactWeight'] = ast.literal_eval(_kw(dj, 'weight'))
     F['exactReversed'] = '.reverse()' in ast.unparse(dj.args[0])
+    # with a mask the distances are taken on the subgraph of masked nodes: `g = g.subgraph(mask_nodes)` under `if mask is not None`
+    base = dj.args[0]
+    while isinstance(base, (ast.Call, ast.Attribute)):
+        base = base.func if isinstance(base, ast.Call) else base.value
+    gname = base.id if isinstance(base, ast.Name) else None
+    sub = False
+    for n in ast.walk(pr):
+        if isinstance(n, ast.If) and _mentions(n.test, 'mask'):
+            for st in n.body:
+                if isinstance(st, ast.Assign) and isinstance(st.targets[0], ast.Name) and st.targets[0].id == gname \
+                        and isinstance(st.value, ast.Call) and isinstance(st.value.func, ast.Attribute) and st.value.func.attr == 'subgraph' \
+                        and st.value.args and ast.unparse(st.value.args[0]) == 'mask_nodes':
+                    sub = True
+    F['exactMaskSubgraph'] = sub
     # nodes_to_keep = nodes.loc[~nodes.<col>.isin(in_range), ...]
     keepcol = []
     for n in ast.walk(pr):
@@ -439,6 +453,17 @@ def longest_facts(tree):
     unreach = [n for n in ast.walk(fn) if isinstance(n, ast.Assign) and isinstance(n.targets[0], ast.Subscript) and 'inf' in ast.unparse(n.targets[0]) and _const(n.value) is not None]
     F['unreachable'] = _const(_one(unreach, 'longest_neurite: unreachable pairs').value)
     F['usesMax'] = len([c for c in _calls(fn, 'max')]) >= 1
+    # `dists = geodesic_matrix(x, from_=leafs).loc[<rows>, <cols>]` (rows and columns in the same order) — or `[...][<cols>]`
+    gmc = _one(_calls(fn, 'geodesic_matrix'), 'longest_neurite: geodesic_matrix call')
+    idx = None
+    for n in ast.walk(fn):
+        if isinstance(n, ast.Subscript) and any(c is gmc for c in ast.walk(n.value)):
+            sl = n.slice
+            viaLoc = isinstance(n.value, ast.Attribute) and n.value.attr == 'loc'
+            idx = (['loc'] if viaLoc else ['cols']) + ([ast.unparse(e) for e in sl.elts] if isinstance(sl, ast.Tuple) else [ast.unparse(sl)])
+    if idx is None:
+        raise ValueError('longest_neurite: the distance matrix is not indexed')
+    F['distIndex'] = idx
     rr = [ast.unparse(c.args[0]) for c in _calls(fn, 'reroot')]
     F['rerootTargets'] = sorted(rr)
     soma = [n for n in ast.walk(fn) if isinstance(n, ast.If) and 'reroot_soma' in ast.unparse(n.test) and isinstance(n.test, ast.BoolOp)]
@@ -545,6 +570,8 @@ def generate(repo: Path):
     L.append(f'def exactCutoff : String := {lstr(T["exactCutoff"])}')
     L.append(f'def exactWeight : String := {lstr(T["exactWeight"])}')
     L.append(f'def exactReversed : Bool := {lbool(T["exactReversed"])}')
+    L.append('/-- with a mask: `g = g.subgraph(mask_nodes)` before the Dijkstra run -/')
+    L.append(f'def exactMaskSubgraph : Bool := {lbool(T["exactMaskSubgraph"])}')
     L.append('/-- `nodes.loc[~nodes.<col>.isin(in_range)]` -/')
     L.append(f'def exactKeepColumn : String := {lstr(T["exactKeepColumn"])}')
     L.append('/-- `max_len = [<agg>([path_len[l1][l2] …]) …]`; `len_to_prune = <left> <op> max_len` -/')
@@ -623,6 +650,8 @@ def generate(repo: Path):
     L.append(f'def lnEndTypes : List String := {lstrs(L_["endTypes"])}')
     L.append(f'def lnUnreachable : Int := {lint(L_["unreachable"])}')
     L.append(f'def lnUsesMax : Bool := {lbool(L_["usesMax"])}')
+    L.append('/-- how the tip-to-tip distance matrix is indexed: `.loc[rows, cols]` or `[cols]` -/')
+    L.append(f'def lnDistIndex : List String := {lstrs(L_["distIndex"])}')
     L.append(f'def lnRerootTargets : List String := {lstrs(L_["rerootTargets"])}')
     L.append(f'def lnRerootGuard : List String := {lstrs(L_["rerootGuard"])}')
     L.append('/-- fastcore branch: `dmat[dmat <cmp> limit] = <value>`; scipy branch: `dijkstra(…, limit=<…>)` -/')
